@@ -18,9 +18,9 @@ echo "== suite with change"; mv $demo /tmp/wt/$dn.rs.aside
 cargo test --offline 2>&1 | grep -E "^test result|FAILED|panicked" > $out/suite_with_change.txt; mv /tmp/wt/$dn.rs.aside $demo
 suite_ok=$(grep -c "test result: ok" $out/suite_with_change.txt); suite_bad=$(grep -vc "test result: ok" $out/suite_with_change.txt)
 echo "   ok-lines=$suite_ok other-lines=$suite_bad"
-echo "== demo with change"; cargo test --offline --test $dn 2>&1 | grep -E "^test result" > $out/demo_with_change.txt; cat $out/demo_with_change.txt
+echo "== demo with change"; cargo test --offline ${DEMO_FLAGS:-} --test $dn 2>&1 | grep -E "^test result" > $out/demo_with_change.txt; cat $out/demo_with_change.txt
 git stash push -q -- src Cargo.toml
-echo "== demo without change"; cargo test --offline --test $dn 2>&1 | grep -E "^test result" > $out/demo_without_change.txt; cat $out/demo_without_change.txt
+echo "== demo without change"; cargo test --offline ${DEMO_FLAGS:-} --test $dn 2>&1 | grep -E "^test result" > $out/demo_without_change.txt; cat $out/demo_without_change.txt
 git stash pop -q
 cd /verif
 if ! git -C /repo apply --check $out/patch.diff 2>/dev/null; then echo "PATCH DOES NOT APPLY to /repo"; exit 3; fi
